@@ -288,6 +288,26 @@ def D26():
     return True, str(d)
 
 
+def D27():
+    nodes = dict(test_schema.spec["nodes"])
+    nodes.update({
+        "table": {"content": "row+", "group": "block", "isolating": True},
+        "row": {"content": "cell+"},
+        "cell": {"content": "block+", "isolating": True},
+    })
+    s = Schema({"nodes": nodes, "marks": test_schema.spec["marks"]})
+    n, t = s.node, s.text
+    para = lambda *c: n("paragraph", None, list(c))  # noqa: E731
+    d = n("doc", None, [para(t("a")), n("table", None, [n("row", None, [n("cell", None, [para(t("c1"))]), n("cell", None, [para(t("c2"))])])]), para(t("z"))])
+    sl = d.slice(7, 11)  # from inside the first cell to after it: <cell(paragraph("c1"))>(2,0)
+    try:
+        tr = with_timeout(lambda: Transform(d).replace(0, 0, sl))
+    except _Timeout:
+        return False, f"Transform.replace(0, 0, {sl}) does not terminate"
+    tr.doc.check()
+    return True, str(tr.doc)
+
+
 ALL = {k: v for k, v in list(globals().items()) if k[0] == "D" and k[1:].isdigit()}
 
 if __name__ == "__main__":
